@@ -7,6 +7,8 @@ committed transcription of the RFC's XDR definitions; `Model.Xdr` is the generic
 of go-rpcgen's xdr primitives (tied to the real `Xdr` methods by the `xdr` correspondence).
 -/
 import GoNfsd.Lemmas.XdrRoundtrip
+import GoNfsd.Lemmas.XdrPrefix
+import GoNfsd.Lemmas.XdrReenc
 import GoNfsd.Gen.Xdr
 import GoNfsd.Gen.Dispatch
 import GoNfsd.Spec.Rfc1813
@@ -84,6 +86,41 @@ theorem truncated_body_rejected (max : Option Nat) (w body : List UInt8) (hw : w
   have ht : takeN 4 (w ++ body) = some (w, body) := takeN_append' w body 4 hw
   have hb : takeN (beNat w) body = none := by simp [takeN, h]
   constructor <;> (simp only [dec, decBytes, ht]; split <;> simp [hb])
+
+/-- The decoder reads from the front and never looks past what it consumes: a successful decode
+    is the same decode on every extension of the input. -/
+theorem decode_ignores_what_follows (t : Ty) (bs : List UInt8) (v : Val) (r ext : List UInt8)
+    (h : dec t bs = some (v, r)) : dec t (bs ++ ext) = some (v, r ++ ext) := dec_ext t bs v r ext h
+
+/-- A message cut short ANYWHERE is refused: no proper prefix of an encoding decodes — inside a
+    word, a string, its padding, a union arm or an entry list, for every type descriptor (the
+    three theorems above are instances at the leaves). -/
+theorem truncated_rejected (t : Ty) (v : Val) (bs p q : List UInt8) (h : enc t v = some bs)
+    (hp : bs = p ++ q) (hq : q ≠ []) : dec t p = none := no_proper_prefix_decodes t v bs p q h hp hq
+
+/-- Whatever the decoder accepts, the encoder accepts back (decoded values respect every bound
+    of their type), the re-encoding is exactly as long as what was consumed, and it decodes to
+    the same value: the freedom the decoder leaves a sender (a boolean as any non-zero word,
+    padding bytes of any value, findings of this property) never changes size or meaning. -/
+theorem decoded_values_reencode (t : Ty) (bs : List UInt8) (v : Val) (r : List UInt8)
+    (h : dec t bs = some (v, r)) :
+    ∃ c, enc t v = some c ∧ c.length + r.length = bs.length ∧ dec t (c ++ r) = some (v, r) := by
+  obtain ⟨c, hc, hl⟩ := dec_reenc t bs v r h
+  exact ⟨c, hc, hl, dec_enc t v c r hc⟩
+
+/-- ... and on what the encoder itself wrote, decode-then-encode is the identity on bytes. -/
+theorem encode_decode_encode (t : Ty) (v : Val) (bs : List UInt8) (h : enc t v = some bs) :
+    ((dec t bs).bind fun p => enc t p.1) = some bs := by
+  have := dec_enc t v bs [] h
+  simp at this
+  simp [this, h]
+
+/-- a boolean written as 7 and padding bytes 9 9 9 are accepted; re-encoding normalises them and
+    keeps the length -/
+example : ((dec (.struct [.bool, .str (some 8)]) [0, 0, 0, 7, 0, 0, 0, 1, 65, 9, 9, 9]).bind
+      fun p => enc (.struct [.bool, .str (some 8)]) p.1) =
+    some [0, 0, 0, 1, 0, 0, 0, 1, 65, 0, 0, 0] := by decide
+example : dec (.struct [.bool, .str (some 8)]) [0, 0, 0, 7, 0, 0, 0, 1, 65, 9, 9] = none := by decide
 
 /-! Non-vacuity: a concrete GETATTR3args value (16-byte handle) encodes, so the hypothesis of
     `roundtrip` is satisfiable, and its encoding is the RFC layout. -/
